@@ -228,6 +228,9 @@ let () =
         (* harness-only actions that must not change any result: a change of the working directory after the reads of
            the scenario, and a permission requirement every file of the harness satisfies *)
         | ["chdir"; _] -> print_endline "rc=0"
+        | ["readfile"; _; p; dl; cm] when p = "-" || dl = "-" || cm = "-" ->
+            (* econf_readFile with a NULL file name, delimiter or comment argument: refused, no object *)
+            print_endline "rc=1 obj=0 checks= opens="
         (* the history of a two-directory read merged left to right by the caller with econf_mergeFiles (a file is
            skipped when a later one has the same name; the first is taken as it is, as the library does): the result,
            then every member of the history as it is AFTER these merges *)
